@@ -355,3 +355,57 @@ Definition http_server_recv_fixed (max declared : Z) (actual : list byte) : http
   if declared >? max then HTooLarge
   else let '(data, err) := http_read_all declared actual in
        if err then HError else HDeliver data.
+
+(* ================================================================================ *)
+(* Later states of the handlers (added; nothing above changes).                      *)
+
+(* rpc/udp/transport.go conn.Transport after 7f6e14b:
+     if len(request) > maxBodyLength { return nil, core.ErrRequestEntityTooLarge }
+   so conn.send's slice expression is never reached with an oversize body. *)
+Inductive transport_result := TSent (dgram : list byte) | TRefused | TPanic.
+
+Definition udp_transport (cap : nat) (index : Z) (body : list byte) : transport_result :=
+  if (cap - 8 <? length body)%nat then TRefused
+  else match udp_send cap index body with Sent d => TSent d | SendPanic => TPanic end.
+
+(* rpc/udp/handler.go send after 7f6e14b:
+     if len(body) > len(buffer)-8 { index |= 0x8000; body = "Response entity too large" } *)
+Definition RESPONSE_TOO_LARGE : list byte :=
+  [x52; x65; x73; x70; x6f; x6e; x73; x65; x20; x65; x6e; x74; x69; x74; x79; x20;
+   x74; x6f; x6f; x20; x6c; x61; x72; x67; x65].
+
+Definition udp_reply (cap : nat) (index : Z) (body : list byte) : list byte :=
+  if (cap - 8 <? length body)%nat
+  then udp_make_header (Z.of_nat (length RESPONSE_TOO_LARGE)) (Z.lor index 32768) ++ RESPONSE_TOO_LARGE
+  else udp_make_header (Z.of_nat (length body)) index ++ body.
+
+(* The request index a client puts on the wire for its counter value:
+     rpc/udp/transport.go     index := int(atomic.AddInt32(&c.counter, 1) & 0x7fff)
+     rpc/socket, rpc/websocket  ... & 0x7fffffff
+   The mask is a parameter so that the theorems can say which masks are sound. *)
+Definition client_index (mask counter : Z) : Z := Z.land counter mask.
+Definition UDP_INDEX_MASK : Z := 32767.
+Definition SOCK_INDEX_MASK : Z := 2147483647.
+
+(* rpc/http/handler.go ServeHTTP after bf2ea6e + 72ffd23, with the reader limit as a
+   parameter ([lim] = MaxRequestLength + 1 in the code):
+     if ContentLength > Max { 413 }
+     data, err := readAll(io.LimitReader(request.Body, lim), ContentLength)
+     if err != nil { 400; return }
+     if len(data) > Max { 413; return }
+     Service.Handle(ctx, data) *)
+(* io.LimitReader(r, lim): at most lim bytes of what r yields (written so that running it does
+   not build the unary numeral of a large limit: limit_reader_firstn in the proofs) *)
+Definition limit_reader (lim : Z) (l : list byte) : list byte :=
+  if Z.of_nat (length l) <=? lim then l else firstn (Z.to_nat lim) l.
+
+Definition http_server_recv_lim (lim max declared : Z) (actual : list byte) : http_result :=
+  if declared >? max then HTooLarge
+  else
+    let '(data, err) := http_read_all declared (limit_reader lim actual) in
+    if err then HError
+    else if Z.of_nat (length data) >? max then HTooLarge
+    else HDeliver data.
+
+Definition http_server_recv_limited (max declared : Z) (actual : list byte) : http_result :=
+  http_server_recv_lim (max + 1) max declared actual.
